@@ -1,4 +1,5 @@
 import collections
+import itertools
 import typing as tp
 
 from cirbo.core.circuit import (
@@ -157,19 +158,20 @@ def _process_nor(cnf: CnfRaw, top_lit: Lit, lits: list[Lit]):
 
 
 def _process_xor(cnf: CnfRaw, top_lit: Lit, lits: list[Lit]):
-    a, b, c = lits[0], lits[1], top_lit
-    cnf.append([-a, -b, -c])
-    cnf.append([-a, b, c])
-    cnf.append([a, -b, c])
-    cnf.append([a, b, -c])
+    # top_lit <-> XOR of all lits: forbid every assignment of lits under
+    # which top_lit would differ from the parity of the assignment.
+    for signs in itertools.product((True, False), repeat=len(lits)):
+        clause = [-lit if sign else lit for lit, sign in zip(lits, signs)]
+        clause.append(top_lit if sum(signs) % 2 == 1 else -top_lit)
+        cnf.append(clause)
 
 
 def _process_nxor(cnf: CnfRaw, top_lit: Lit, lits: list[Lit]):
-    a, b, c = lits[0], lits[1], top_lit
-    cnf.append([-a, -b, c])
-    cnf.append([-a, b, -c])
-    cnf.append([a, -b, -c])
-    cnf.append([a, b, c])
+    # top_lit <-> NOT XOR of all lits.
+    for signs in itertools.product((True, False), repeat=len(lits)):
+        clause = [-lit if sign else lit for lit, sign in zip(lits, signs)]
+        clause.append(-top_lit if sum(signs) % 2 == 1 else top_lit)
+        cnf.append(clause)
 
 
 def _process_gt(cnf: CnfRaw, top_lit: Lit, lits: list[Lit]):
